@@ -165,6 +165,52 @@ fn replay_at_rest(base: Instant, cfgname: &'static str, wl: Wl) -> (u64, Vec<(St
     }
 }
 
+/// Forgeries while closing: after the transfer one side calls close(); during its closing period
+/// damaged copies of the peer's genuine datagrams (one bit flipped in the tag, in the middle, in the
+/// first byte) reach it from the peer's address. A packet that does not authenticate draws nothing.
+fn forgeries_while_closing(base: Instant, cfgname: &'static str, closer: usize) -> (u64, Vec<(String, String)>) {
+    let r = guarded(|| {
+        let cfg = cfg_by_name(cfgname);
+        let mut p = std_pair_pre(base, &cfg, Wl::W2, ReadMode::default(), |_| {});
+        let done = drive(&mut p, &[], 60_000, HZ);
+        let mut v = vec![];
+        if !done {
+            return (0u64, v);
+        }
+        crate::scen::apply_op(&mut p, &Op::Close(closer, 3));
+        let olds: Vec<(Vec<u8>, std::net::SocketAddr, std::net::SocketAddr)> = p.w.recs.iter().rev().filter_map(|r| match r {
+            Rec::Emit { node, data, src, dst, ch: Some(_), .. } if *node == 1 - closer && data[0] & 0x80 == 0 => Some((data.clone(), *src, *dst)),
+            _ => None,
+        }).take(6).collect();
+        let Some(ch) = (if closer == CLIENT { Some(p.cch) } else { p.sch() }) else { return (0, v) };
+        let mut n = 0u64;
+        for (data, src, dst) in olds {
+            for (pos, mask) in [(data.len() - 1, 1u8), (data.len() / 2, 0x10), (0, 0x04), (data.len() - 9, 0x80)] {
+                let mut d = data.clone();
+                d[pos] ^= mask;
+                let mark = p.w.recs.len();
+                let at = p.w.t;
+                let routed = p.w.deliver(crate::sim::Flight { at, seq: 0, idx: u64::MAX, src, dst, ecn: None, data: d, injected: true });
+                if routed != crate::sim::Routed::Conn(ch) {
+                    continue;
+                }
+                n += 1;
+                let sent = p.w.recs[mark..].iter().filter(|r| matches!(r, Rec::Emit { node, ch: Some(_), .. } if *node == closer)).count();
+                if sent != 0 {
+                    v.push(("forged-datagram-draws-output-while-closing".into(), format!("node{closer} is in its closing period; a copy of a genuine {}-byte datagram with byte {pos} xor {mask:#x} (it cannot authenticate) made the connection send {sent} datagram(s)", data.len())));
+                    return (n, v);
+                }
+                p.w.t += Duration::from_millis(1);
+            }
+        }
+        (n, v)
+    });
+    match r {
+        Err(e) => (0, vec![("panic".into(), format!("panic: {e}"))]),
+        Ok(x) => x,
+    }
+}
+
 /// A run with one injected datagram delivered right after emission index `after` was delivered
 #[derive(Clone, Debug)]
 struct InjCase {
@@ -909,7 +955,7 @@ pub fn main(args: &Args) -> ! {
     let mut rep = Report::new("C04", args, "fault_enumeration");
     let thorough = args.tier == Tier::Thorough;
     let dl = deadline(if thorough { 1200 } else { 45 });
-    rep.rule = "E3 over the real endpoints: (a) every emitted datagram of each baseline re-delivered after each delay of a delay list (and all pairs in thorough) with forced key updates, oracle: per frame type frames processed <= frames decoded on the wire; (a2) after completion and 100 ms of quiet every datagram of the run is delivered once more, one at a time: the receiving connection's timers and bookkeeping (probe) are unchanged and nothing is sent; (b) every emitted datagram x every mutation (every bit of the first byte, bit flips in the leading 24 (thorough: 32, all bits) and trailing 16 bytes, truncations around every header boundary, extensions) injected after the original, differential oracle against the uninjected run; (b2) each early datagram damaged in transit (original lost, mutated copy arrives): the peers must recover and complete; (c) stateless-reset, Version Negotiation and Retry probes at every step index; (d) E1: the replay window (`Dedup`) through every insert history over two packet-number alphabets (one dense around jumps of 126..131 and the second window) against the set of numbers seen. Non-trivial = the injected/duplicated datagram was actually delivered; distinct = distinct (kind, index, mutation) tuples by hash of the resulting trace.".into();
+    rep.rule = "E3 over the real endpoints: (a) every emitted datagram of each baseline re-delivered after each delay of a delay list (and all pairs in thorough) with forced key updates, oracle: per frame type frames processed <= frames decoded on the wire; (a2) after completion and 100 ms of quiet every datagram of the run is delivered once more, one at a time: the receiving connection's timers and bookkeeping (probe) are unchanged and nothing is sent; (a3) during the closing period of either side damaged copies of the peer's genuine datagrams draw nothing; (b) every emitted datagram x every mutation (every bit of the first byte, bit flips in the leading 24 (thorough: 32, all bits) and trailing 16 bytes, truncations around every header boundary, extensions) injected after the original, differential oracle against the uninjected run; (b2) each early datagram damaged in transit (original lost, mutated copy arrives): the peers must recover and complete; (c) stateless-reset, Version Negotiation and Retry probes at every step index; (d) E1: the replay window (`Dedup`) through every insert history over two packet-number alphabets (one dense around jumps of 126..131 and the second window) against the set of numbers seen. Non-trivial = the injected/duplicated datagram was actually delivered; distinct = distinct (kind, index, mutation) tuples by hash of the resulting trace.".into();
 
     // (a) duplicates
     let scripts: Vec<(&'static str, Vec<(u64, Op)>)> = vec![
@@ -975,6 +1021,21 @@ pub fn main(args: &Args) -> ! {
             machinery("vacuity guard: no datagram was replayed at rest");
         }
         rep.part("replays_at_rest", json!({"cases": cases, "datagrams_replayed": replays}));
+        let mut forged = 0u64;
+        for cfg in ["default", "cid0", "keepalive"] {
+            for closer in [CLIENT, SERVER] {
+                let (n, viol) = forgeries_while_closing(base, cfg, closer);
+                forged += n;
+                rep.evaluations += n;
+                for (sig, what) in viol {
+                    rep.violation(Violation { signature: sig, what: format!("cfg={cfg}: {what}"), replay: json!({"check":"c04","kind":"forgeries_while_closing","cfg":cfg,"closer":closer}) });
+                }
+            }
+        }
+        if forged == 0 {
+            machinery("vacuity guard: no forged datagram reached a closing connection");
+        }
+        rep.part("forgeries_while_closing", json!({"datagrams_forged": forged}));
     }
     rep.sample(json!({"kind":"dup","cfg":"default","wl":"W1","dups":[[0,15]],"meaning":"the connection-creating Initial (emission #0) is delivered a second time 15 ms after the first copy"}));
 
